@@ -60,6 +60,12 @@ class Explorer:
         for c in extra:
             self.solver.add(c)
         r = self.solver.check()
+        self.last_model = None
+        if r == z3.sat and getattr(self, "want_model", False):
+            try:
+                self.last_model = self.solver.model()
+            except z3.Z3Exception:
+                self.last_model = None
         self.solver.pop()
         self.nqueries += 1
         self.solver_time += time.time() - t0
